@@ -190,7 +190,7 @@ class Unit:
 
     def fn(self, rel, name, impl=None, mod=None, *, sub=None, ret=None, requires=None, ensures=None, loops=None,
            splices=None, pre_rewrite=None, post_rewrite=None, stub=False, qual=None, erase_async=False,
-           decreases=None, no_unwind=False, attrs='', props=()):
+           decreases=None, no_unwind=False, attrs='', props=(), spinoff=None):
         """extract a function, apply rules and overlay.
         loops: {ordinal: dict(inv=[clauses], dec='expr')}.
         splices: [(anchor, text, 'before'|'after')], anchor must occur exactly once in the body;
@@ -249,6 +249,10 @@ class Unit:
             # drop tags: obligations of a stub are proved in the unit that owns the body
             contract_nt = re.sub(r'\s*// @ob [^\n]*', '', contract)
             return (attrs + '#[verifier::external_body]\n' + sig + '\n' + contract_nt + '{ unimplemented!() }\n')
+        # functions with loop invariants / proof splices get their own Z3 instance: their verdict then depends on
+        # their own text only (no solver state carried over from neighbouring functions -> no cross-function flakiness)
+        if spinoff or (spinoff is None and (loops or splices)):
+            attrs = attrs + '#[verifier::spinoff_prover]\n'
         # loops
         loops = loops or {}
         found = find_loops(body)
